@@ -34,6 +34,9 @@ import (
 	"errors"
 	"fmt"
 	"io"
+	"io/fs"
+	"os"
+	"path/filepath"
 	"sort"
 	"strconv"
 	"strings"
@@ -317,6 +320,7 @@ func c17Variant(to, debug, bare bool) string {
 }
 
 func runC17(cases string, res *Result) {
+	c17UnreadableFile(cases, res)
 	known := map[string]*Finding{}
 	knownSize := map[string]int{}
 	readCases(cases, func(c Case) {
@@ -709,4 +713,56 @@ func idxOfBool(b bool) int {
 		return 1
 	}
 	return 0
+}
+
+// c17UnreadableFile: a loader failure that is not "not found" -- a file that exists and cannot be read (a directory
+// stands where it should be) -- ends the render with an error whose cause can be found with errors.As, is not
+// ErrTemplateNotFound, and is not turned into empty output by ignore missing; directly, included, imported, extended.
+func c17UnreadableFile(cases string, res *Result) {
+	root := filepath.Join(filepath.Dir(cases), "c17fs")
+	os.RemoveAll(root)
+	defer os.RemoveAll(root)
+	os.MkdirAll(filepath.Join(root, "broken.twig"), 0o755)
+	files := map[string]string{
+		"inc.twig": "A{% include 'broken.twig' %}B", "inc_ign.twig": "A{% include 'broken.twig' ignore missing %}B",
+		"ext.twig": "{% extends 'broken.twig' %}{% block b %}x{% endblock %}", "imp.twig": "A{% import 'broken.twig' as m %}B",
+		"from.twig": "A{% from 'broken.twig' import m %}B", "loop.twig": "{% for i in [1, 2] %}{{ i }}{% include 'broken.twig' ignore missing %}{% endfor %}",
+		"rel.twig": "A{% include './broken.twig' ignore missing %}B",
+	}
+	for n, s := range files {
+		os.WriteFile(filepath.Join(root, n), []byte(s), 0o644)
+	}
+	for _, chain := range []bool{false, true} {
+		eng := twig.New()
+		var ld twig.Loader = twig.NewFileSystemLoader([]string{root})
+		if chain {
+			ld = twig.NewChainLoader([]twig.Loader{twig.NewArrayLoader(map[string]string{}), ld})
+		}
+		eng.RegisterLoader(ld)
+		names := []string{"broken.twig"}
+		for n := range files {
+			names = append(names, n)
+		}
+		sort.Strings(names)
+		for _, n := range names {
+			c := Case{"stream": "c17-unreadable-file", "template": n, "inside a ChainLoader": chain}
+			res.Hist["stream:c17-unreadable-file"]++
+			res.Evaluations++
+			out, err := eng.Render(n, map[string]interface{}{})
+			var pe *fs.PathError
+			switch {
+			case err == nil:
+				res.add(Finding{Kind: "oracle", Where: "c17-unreadable-file/" + n, Case: c, Expected: "an error that wraps the read failure", Observed: "nil error, output " + strconv.Quote(out),
+					Detail: "a loader failure was replaced by output"})
+			case out != "":
+				res.add(Finding{Kind: "oracle", Where: "c17-unreadable-file/" + n, Case: c, Expected: `"" with the error`, Observed: strconv.Quote(out), Detail: "partial output next to the error"})
+			case errors.Is(err, twig.ErrTemplateNotFound):
+				res.add(Finding{Kind: "oracle", Where: "c17-unreadable-file/" + n, Case: c, Expected: "an error other than template-not-found", Observed: err.Error(),
+					Detail: "a file that exists and cannot be read is reported as a missing template"})
+			case !errors.As(err, &pe):
+				res.add(Finding{Kind: "oracle", Where: "c17-unreadable-file/" + n, Case: c, Expected: "errors.As(err, *fs.PathError)", Observed: err.Error(),
+					Detail: "the cause of the loader's failure cannot be found in the error chain"})
+			}
+		}
+	}
 }
